@@ -31,17 +31,22 @@ ID = "C19"
 LEVEL = "exploration"
 RULE = ("a case is non-trivial when the written instance description states >= 3 distinct legacy options with "
         "non-None values over its components/blueprints (or it is a sweep case: exactly one key of the table); "
-        "distinct = distinct abstract cases. Per-key coverage of the 50-key option table is in extra.keys "
+        "distinct = distinct abstract cases. Per-key coverage of the 49-key option table is in extra.keys "
         "(must list all extra.table_keys keys: the sweep touches every key in every mode; extra.keys@<mode> per mode).")
 ASSUMPTIONS = [
-    "domain = options that have a key in both directions of the legacy mapping (50 keys); qos, podSpec, gpus, "
+    "domain = options that have a key in both directions of the legacy mapping (49 keys); qos, podSpec, gpus, "
     "isMigrated, the docker backend block, component `override` blocks and DoWhile/Workflow documents are not generated",
     "values are single-line strings without leading/trailing white space (the INI reader strips it), except "
-    "memoization-embedding-function which may have several non-indented, non-empty lines; no non-ASCII text; "
-    "a literal percent sign is written '%%' (a lone '%' is not accepted by the writer, see report)",
-    "variable / environment-variable names match [A-Za-z0-9_.-]+, are not legacy keywords and are not within difflib "
-    "distance 0.8 of one; component names are not DEFAULT/META in any letter case; environment names are unique "
-    "up to letter case (the legacy format upper-cases them)",
+    "memoization-embedding-function which may have several non-indented, non-empty lines; no non-ASCII text; an "
+    "interpreter component's arguments have single blanks and an unquoted first word (FlowIR's own splitting would "
+    "otherwise create leading white space); a few % of the cases carry a percent sign that is not doubled (legal in "
+    "FlowIR, read raw by the legacy loader)",
+    "numeric options are numbers or a whole %(variable)s reference (the legacy loader itself rejects '1%(x)s'); "
+    "references to variables always resolve (base variables live in the default global scope)",
+    "variable names match [A-Za-z0-9_-]+ (a dot is a scope route in FlowIR), environment-variable names "
+    "[A-Za-z0-9_.-]+; neither is a legacy keyword nor within difflib ratio 0.75 of one (the loader reports such names "
+    "as typos); component names are not DEFAULT/META in any letter case; environment names are unique up to letter "
+    "case (the legacy format upper-cases them)",
     "variable values and environment values are compared as strings (the legacy format is untyped: 3 == '3'); typed "
     "component options are compared after FlowIR's own type conversion (get_component_configuration(raw=False))",
     "status: a missing `arguments`/`references` equals ''/[] and they are only compared when an executable is "
@@ -50,6 +55,9 @@ ASSUMPTIONS = [
     "_dump_output like the repository's own test does, mode pkgdump uses the public dump(is_instance=False), mode "
     "legacy leaves the package's own files in place (as DOSINIExperimentConfiguration does)",
     "errors only *collected* by the loader (out_errors: missing-required-option, typo warnings) are not violations",
+    "mode legacy: blueprint sections of the hand-written package state no executor options and every status section "
+    "states its stage-weight (the *package* loader fails otherwise, which is not this property)",
+    "application-dependencies / virtual-environments ([SANDBOX]) are generated but not compared (not in the statement)",
 ]
 TIERS = {"quick": {"shards": 8, "budget": 100}, "thorough": {"shards": 16, "budget": 1500}}
 
